@@ -377,9 +377,8 @@ func c05Handmade(r *rand.Rand, i int) ([]byte, string) {
 		// valid VP8L picture whose 1x1 entropy image names one high prefix-code group: the stream has to carry every
 		// group up to that index (20 bits each as single-symbol codes), the picture uses one. Memory has to follow the
 		// input (a few bytes per unused group at most), not index x table size.
-		if (i/14)%8 == 0 { // one slot in eight: these inputs cost a few hundred milliseconds per entry point
-			return c05SparseGroups(r), "vp8l-sparse-groups"
-		}
+		// (withdrawn from the input list: their verdict needs a live-heap figure, and under load that figure counts what is
+		// allocated while a collection is running - DESIGN.md section 9, note on C05g. The generator stays, with its test.)
 		fallthrough
 	case 12: // valid, very narrow VP8L pictures (widths 1..7: most plane codes map to distances < 1 and are clamped)
 		p := vp8l.DefaultParams()
@@ -735,9 +734,7 @@ func c05RunOne(data []byte) (res c05Result) {
 		// nothing). The property bounds memory, so the verdict comes from a second run with the collector kept eager and
 		// the live heap sampled: only live memory above the bound is a violation.
 		res.Live = c05PeakLive(data)
-		// the 64 MiB of slack in the cumulative bound are there for garbage; live memory gets 32 MiB
-		if liveBound := bound - 32<<20; res.Live > liveBound {
-			bound = liveBound
+		if res.Live > bound {
 			fail("alloc-bound", fmt.Sprintf("peak live heap %d bytes (cumulative allocation %d) for a %d-byte input declaring %d px (canvas %d): bound %d", res.Live, res.Alloc, len(data), area, canvas, bound))
 		}
 	}
@@ -899,7 +896,7 @@ func runC05(c *ev.Ctx) {
 		"DecodeFramesParallel+NewAnimDecoder+NextFrame) on structure-aware mutations (22 operators incl. size-field edits, chunk drop/dup/swap/splice, header edits, truncation, " +
 		"frame repetition) of valid lossy/lossless/alpha/extended/animated/synthesized files (incl. extreme aspect ratios such as 16000x9), plus hand-made declaration bombs and header-prefixed garbage; " +
 		"per input (by a hash of its bytes) the internal worker count is left at GOMAXPROCS=2 or forced to 16/5/37 and the reader is a bytes.Reader, a reader without Len() or short reads; in child processes under " +
-		"ulimit -v with per-case logging; oracles: no panic / fatal / child death, watchdog (3 isolated re-runs before a verdict), TotalAlloc <= 64MiB + 64*len + 48*(declared px) - and, where the cumulative figure is above that, peak live heap of a second run sampled after forced collections <= that bound minus 32 MiB (only that is a verdict), " +
+		"ulimit -v with per-case logging; oracles: no panic / fatal / child death, watchdog (3 isolated re-runs before a verdict), TotalAlloc <= 64MiB + 64*len + 48*(declared px) - and, where the cumulative figure is above that, peak live heap of a second run sampled after forced collections <= the same bound (only that is a verdict), " +
 		"well-formed results; plus a scaling probe: 108 families of n repeated units (chunk kinds x container heads x tails) at n and 4n, CPU time ratio > 10 with >= 0.4 s CPU, three times in a row = superlinear-time; " +
 		"distinct = distinct (mutation operator, seed kind, number of accepting entry points) tuples"
 	c.Assume("declared pixel area is computed by a tolerant scanner that over-approximates (every header-looking byte sequence counts)")
